@@ -5,7 +5,7 @@ import ast
 from .. import tables as T
 from ..linkrules import link_fields
 from ..model import AnalysisError, norm
-from .common import call_binding, check_forwarding, find_calls, none_test, typer_for, walk_own
+from .common import call_binding, cfg_nodes_containing, check_forwarding, find_calls, none_test, typer_for, walk_own
 from .exporter_rules import rule_init_stores, rule_optint_truthiness
 
 PROP = "C10"
@@ -16,9 +16,11 @@ EXPLANATION = (
     "and every other item of node.__dict__ is yielded unchanged; X2 alias/effect analysis: DictImporter never applies a "
     "mutating operation to a value that may alias its argument or a nested list obtained from it (dict(data)/copy() break "
     "the alias, plain assignment and pop()/[] results do not), DictExporter never stores to the node; X3 every recursive "
-    "export call passes dictcls, attriter, childiter unchanged and level + 1, children come from childiter(node.children), "
-    "the depth guard is `maxlevel is None or level < maxlevel` (None-test, strict) with start level 1 and does not dominate "
-    "construction of the node's own dict; X4 the 'children' key is stored only when the exported list is non-empty; X5 the "
+    "export call passes dictcls, attriter, childiter unchanged, children come from childiter(node.children); the depth "
+    "parameter's start value, step and guard are evaluated to linear forms over (maxlevel, level) on the path condition of "
+    "the recursive call and must amount to `maxlevel is None or level < maxlevel` with the start node on level 1 (counting up "
+    "or down, enclosing-if or early-return form; an off-by-k guard, an equality test on the counter, a constant passed down "
+    "or a comparison reached with None is reported), every return hands back the node's own dict; X4 the 'children' key is stored only when the exported list is non-empty; X5 the "
     "importer builds nodecls(parent=parent, **attrs) from the copy minus exactly 'children', iterates the children in order "
     "and recurses with parent=<the node just built>; import_ passes data unchanged; X6 Node/AnyNode constructors put keyword "
     "attributes straight into the instance dict (any key is storable and exported again). Not decided: round-trip equality."
@@ -51,6 +53,8 @@ def run(ctx):
     iav = p.func("DictExporter", "_iter_attr_values")
     ctx.touch(iav)
     want = {k for k, (m, _) in link_fields(p).items() if m == "NodeMixin"}
+    from ..memo import memo_fields
+    want = want | {k for k, mm in memo_fields(p).items() if mm.cls == "NodeMixin"}  # cached link data is bookkeeping too
     tables = []
     for n in walk_own(iav.node):
         if isinstance(n, ast.Compare) and len(n.ops) == 1 and isinstance(n.ops[0], (ast.In, ast.NotIn)):
@@ -168,25 +172,41 @@ def run(ctx):
     # ---------------------------------------------------------------- X3
     cfg = typer.cfg_of(ex)
     rec = find_calls(ex, lambda c: norm(c.func) in ("self.__export",))
+    has_children_store = any(isinstance(n, ast.Assign) and isinstance(n.targets[0], ast.Subscript) and isinstance(n.targets[0].slice, ast.Constant)
+                             and n.targets[0].slice.value == "children" for n in walk_own(ex.node))
     if not rec:
+        if has_children_store:
+            raise AnalysisError("C10: DictExporter.__export is not recursive - this implementation of the export is not followed")
         ctx.viol("X3", ex, ex.node, "no recursive export of the children", construct="__export: no recursion")
+    fixed = ("node", "dictcls", "attriter", "childiter")
+    qs = [x for x in ex.posparams if x != ex.selfname and x not in fixed]
+    if not qs and rec:
+        # no depth is carried: where does the cut come from?
+        absolute = [n for n in walk_own(ex.node) if isinstance(n, ast.Attribute) and n.attr in ("depth", "path", "ancestors", "height", "_path")]
+        if absolute:
+            ctx.viol("X3", ex, absolute[0], "the export carries no depth of its own and consults `%s`: that is the node's position in the "
+                     "whole tree, not its level relative to the exported start node - exporting a subtree cuts at the wrong level" % norm(absolute[0]),
+                     construct="__export: absolute depth %s" % norm(absolute[0]))
+        elif any(isinstance(n, ast.Attribute) and n.attr == "maxlevel" for n in walk_own(ex.node)):
+            raise AnalysisError("C10: DictExporter.__export carries no depth parameter; how it applies maxlevel is not followed")
+        else:
+            ctx.viol("X3", ex, ex.node, "the recursive export neither carries a depth nor reads maxlevel: the limit has no effect",
+                     construct="__export: maxlevel unused")
+    elif len(qs) != 1:
+        raise AnalysisError("C10: cannot identify the depth parameter of DictExporter.__export among %s" % (qs,))
+    q = qs[0] if qs else None
     for c in rec:
         check_forwarding(ctx, "X3", ex, c, ex, {"node": lambda e: isinstance(e, ast.Name), "dictcls": "dictcls", "attriter": "attriter",
-                                                "childiter": "childiter",
-                                                "level": lambda e: isinstance(e, ast.BinOp) and isinstance(e.op, ast.Add) and
-                                                {norm(e.left), norm(e.right)} == {"level", "1"}})
-    d = ex.defaults.get("level")
-    if d is not None and isinstance(d, ast.Constant) and d.value == 1:
-        ctx.inst("X3", ex, d, "start level 1")
-    else:
-        ctx.viol("X3", ex, ex.node, "start level of the export is not 1", construct="__export: level default")
+                                                "childiter": "childiter", **({q: (lambda e: True)} if q else {})})
     top = p.func("DictExporter", "export")
     ctx.touch(top)
     tc = find_calls(top, lambda c: norm(c.func) == "self.__export")
     if len(tc) == 1:
-        check_forwarding(ctx, "X3", top, tc[0], ex, {"node": "node", "dictcls": lambda e: norm(e) == "self.dictcls",
-                                                     "attriter": lambda e: isinstance(e, ast.Name),
-                                                     "childiter": lambda e: norm(e) == "self.childiter"})
+        expect_top = {"node": "node", "dictcls": lambda e: norm(e) == "self.dictcls", "attriter": lambda e: isinstance(e, ast.Name),
+                      "childiter": lambda e: norm(e) == "self.childiter"}
+        if q is not None and q in call_binding(tc[0], ex):
+            expect_top[q] = lambda e: True
+        check_forwarding(ctx, "X3", top, tc[0], ex, expect_top)
         for n in walk_own(top.node):
             if isinstance(n, ast.Assign) and norm(n.targets[0]) == "attriter":
                 v = n.value
@@ -221,24 +241,38 @@ def run(ctx):
         ctx.inst("X3", ex, ci[0], "children come from childiter(node.children)")
     else:
         ctx.viol("X3", ex, ex.node, "children are not obtained as childiter(node.children)", construct="__export: children source")
-    # depth guard
-    for c in rec:
-        okg = True
-        tests = [n.test for n in walk_own(ex.node) if isinstance(n, ast.If) and any(x is c for st_ in n.body for x in ast.walk(st_))]
-        form = False
-        for t in tests:
-            if isinstance(t, ast.BoolOp) and isinstance(t.op, ast.Or) and len(t.values) == 2:
-                nt = none_test(t.values[0])
-                cmp_ = t.values[1]
-                if nt is not None and nt[1] is True and isinstance(cmp_, ast.Compare) and len(cmp_.ops) == 1:
-                    l, r, op = norm(cmp_.left), norm(cmp_.comparators[0]), type(cmp_.ops[0])
-                    if (l == "level" and r == nt[0] and op is ast.Lt) or (r == "level" and l == nt[0] and op is ast.Gt):
-                        form = True
-        if okg and form:
-            ctx.inst("X3", ex, c, "children exported iff maxlevel is None or level < maxlevel")
-        else:
-            ctx.viol("X3", ex, c, "the depth guard of the recursive export is not `maxlevel is None or level < maxlevel`: nodes are cut "
-                     "one level early/late or a limit of 0/None is mishandled", construct="__export: depth guard")
+    # depth guard: start value, step and guard of the depth parameter, decided on the linear model (see depthmodel.py)
+    from . import depthmodel as DM
+    if len(tc) == 1 and rec and q is not None:
+        try:
+            ev_ex = DM.DepthEval(cfg, ex, {"self.maxlevel"}, q=q)
+            top_cfg = typer.cfg_of(top)
+            ev_top = DM.DepthEval(top_cfg, top, {"self.maxlevel"})
+            b_top = call_binding(tc[0], ex)
+            if q in b_top:
+                tn = cfg_nodes_containing(top_cfg, tc[0])
+                if not tn:
+                    raise DM.Undecided("call site of __export in export()")
+                start_alts = ev_top.ev(b_top[q], tn[0])
+            else:
+                d = ex.defaults.get(q)
+                if not (isinstance(d, ast.Constant) and isinstance(d.value, int) and not isinstance(d.value, bool)):
+                    raise DM.Undecided("default of `%s`" % q)
+                start_alts = [(DM.const(d.value), frozenset())]
+            for c in rec:
+                rn = cfg_nodes_containing(cfg, c)
+                if not rn:
+                    raise DM.Undecided("recursive call site")
+                got = call_binding(c, ex).get(q)
+                if got is None:
+                    ctx.viol("X3", ex, c, "the recursive export does not pass the depth on: every level starts counting again",
+                             construct="__export: depth not passed")
+                    continue
+                step_alts = ev_ex.ev(got, rn[0])
+                tests = DM.path_dnf(cfg, rn[0])
+                DM.decide(ctx, "X3", ex, c, start_alts, step_alts, tests, ev_ex, "__export")
+        except DM.Undecided as exc:
+            ctx.extra["X3_undecided"] = "C10: the depth arithmetic of DictExporter.__export is not followed: %s" % exc
     for n in walk_own(ex.node):
         if isinstance(n, ast.Assign) and isinstance(n.targets[0], ast.Name) and n.targets[0].id == "maxlevel":
             if norm(n.value) == "self.maxlevel":
@@ -246,12 +280,16 @@ def run(ctx):
             else:
                 ctx.viol("X3", ex, n, "depth limit is `%s`, not self.maxlevel" % norm(n.value))
     rets = [r for r in walk_own(ex.node) if isinstance(r, ast.Return)]
+    own = {norm(n.targets[0]) for n in walk_own(ex.node) if isinstance(n, ast.Assign) and len(n.targets) == 1 and isinstance(n.targets[0], ast.Name)
+           and any(x in dc for x in ast.walk(n.value))}
     for r in rets:
-        for cn in cfg.nodes_of(r):
-            if cfg.guards_of(cn):
-                ctx.viol("X3", ex, r, "the node's own dict is returned only conditionally: the start node must always be exported")
-            else:
-                ctx.inst("X3", ex, r, "the node's own dict is returned unconditionally")
+        if r.value is not None and (norm(r.value) in own or any(x in dc for x in ast.walk(r.value))):
+            ctx.inst("X3", ex, r, "the node's own dict is returned")
+        else:
+            ctx.viol("X3", ex, r, "a path of the export returns `%s`, not the node's own dict: the start node must always be exported" % (
+                norm(r.value) if r.value is not None else "None"), construct="__export: return of something else")
+    if any(lab == "fall" and p.id in cfg.reachable_nodes() for p, lab in cfg.exit.pred):
+        ctx.viol("X3", ex, ex.node, "a path of the export falls off the end without returning the node's dict", construct="__export: falls off the end")
     # ---------------------------------------------------------------- X4
     stores = [n for n in walk_own(ex.node) if isinstance(n, ast.Assign) and isinstance(n.targets[0], ast.Subscript)
               and isinstance(n.targets[0].slice, ast.Constant) and n.targets[0].slice.value == "children"]
@@ -267,8 +305,12 @@ def run(ctx):
         src_ok = False
         if isinstance(v, ast.Name):
             for n in walk_own(ex.node):
-                if isinstance(n, ast.Assign) and norm(n.targets[0]) == v.id and isinstance(n.value, ast.ListComp) \
-                        and any(x in rec for x in ast.walk(n.value)) and not n.value.generators[0].ifs:
+                val_ = n.value if isinstance(n, ast.Assign) else None
+                if isinstance(val_, ast.Call) and isinstance(val_.func, ast.Name) and val_.func.id in ("list", "tuple") and len(val_.args) == 1 \
+                        and isinstance(val_.args[0], (ast.GeneratorExp, ast.ListComp)):
+                    val_ = val_.args[0]
+                if isinstance(n, ast.Assign) and norm(n.targets[0]) == v.id and isinstance(val_, (ast.ListComp, ast.GeneratorExp)) \
+                        and any(x in rec for x in ast.walk(val_.elt)) and len(val_.generators) == 1 and not val_.generators[0].ifs:
                     src_ok = True
             # loop form: for child in childiter(...): <list>.append(<recursive export>) on every path
             for li in cfg.nodes:
@@ -366,6 +408,8 @@ def run(ctx):
     rule_init_stores(ctx, "DictExporter", rule="X3")
     rule_init_stores(ctx, "DictImporter", rule="X5")
     rule_optint_truthiness(ctx, typer, {DE, DI}, rule="X3")
+    if ctx.extra.get("X3_undecided") and not ctx.new_findings():
+        raise AnalysisError(ctx.extra["X3_undecided"])
     ctx.floor("X1", 3)
     ctx.floor("X2", 4)
     ctx.floor("X3", 12)
